@@ -303,6 +303,38 @@ func checkWakes(p *core.Prog, r *core.Result, rule string, waits []*WaitSite, ow
 						}
 					}
 					if missing || len(wakeInstrs) == 0 {
+						// a setter helper (the store's struct is its parameter): every caller wakes the waiters on every
+						// path from the call to its own returns
+						if prm, isPrm := core.Unwrap(fa.X).(*ssa.Parameter); isPrm && len(p.FuncValueUses(fn)) == 0 {
+							callers := p.StaticCallers(fn)
+							allWake := len(callers) > 0
+							for _, c := range callers {
+								g := c.Parent()
+								idx := paramIndex(fn, prm)
+								if idx < 0 || idx >= len(c.Common().Args) {
+									allWake = false
+									continue
+								}
+								callerCond := core.Path(c.Common().Args[idx]) + "." + ws.CondField
+								isCallerWake := func(x ssa.Instruction) bool {
+									wc, ok := x.(ssa.CallInstruction)
+									if !ok || !(core.IsMethod(wc, "sync", "Cond", "Signal") || core.IsMethod(wc, "sync", "Cond", "Broadcast")) {
+										return false
+									}
+									mc, _ := core.AsMethodCall(wc)
+									return core.Path(mc.Recv) == callerCond
+								}
+								for _, ret := range core.ReturnsOf(g) {
+									if core.ReachesAvoiding(c.(ssa.Instruction), ret, isCallerWake) {
+										allWake = false
+									}
+								}
+							}
+							if allWake {
+								r.OK(rule, construct, pos, "a setter helper: each of its %d caller(s) signals the condition variable on every path after the call", len(callers))
+								return
+							}
+						}
 						r.Bad(rule, construct, pos, "store to %s.%s (read by the wait loop in %s) can reach a return without Signal/Broadcast on %s: a waiter may sleep forever", ownerType, field, fname(ws.Fn), condPath)
 						return
 					}
